@@ -350,6 +350,8 @@ class ExcelCompiler:
         text_name = filename
         if not text_name.endswith(non_pickle_extension or '.yml'):
             text_name += '.' + (non_pickle_extension or 'yml')
+        text_saved_at = (os.path.getmtime(text_name)
+                         if os.path.exists(text_name) else 0)
         text_changed = self._to_text(text_name, is_json=is_json)
 
         # save pickle file if requested and has changed
@@ -357,7 +359,9 @@ class ExcelCompiler:
             if not filename.endswith(pickle_extension):
                 filename += '.' + pickle_extension
 
-            if text_changed or not os.path.exists(filename):
+            # also when a text only save refreshed the text file in between
+            if (text_changed or not os.path.exists(filename) or
+                    os.path.getmtime(filename) < text_saved_at):
                 excel_compiler = self._from_text(text_name, is_json=is_json)
                 if non_pickle_extension not in file_types:
                     os.unlink(text_name)
